@@ -65,6 +65,16 @@ def embed(row, kind, rng):
         if '"""' in text or "'''" in text:
             return None  # re-indenting would change multi-line string contents
         return head + body, [lambda l: l + 1], 1
+    if kind in ("in-function-class", "in-function-if", "in-function-try", "in-class-class") and lang == "py":
+        if re.search(r"^(return|yield)\b", text, re.M) or "__name__" in text or "from __future__" in text or '"""' in text or "'''" in text or re.search(r"^\s*(import \*|from \S+ import \*)", text, re.M):
+            return None
+        heads = {"in-function-class": ["def wrapper_embedded(flag_embedded):", "    class InnerEmbedded:"],
+                 "in-function-if": ["def wrapper_embedded(flag_embedded):", "    if flag_embedded:"],
+                 "in-function-try": ["def wrapper_embedded(flag_embedded):", "    try:"],
+                 "in-class-class": ["class OuterEmbedded:", "    class InnerEmbedded:"]}[kind]
+        body = "".join(("        " + ln if ln.strip() else ln) + "\n" for ln in text.split("\n")[:-1])
+        tail = "    except LookupError:\n        flag_embedded = None\n" if kind == "in-function-try" else ""
+        return "\n".join(heads) + "\n" + body + tail, [lambda l: l + 2], 1
     if kind.startswith("repeat") and lang == "py":
         k = int(kind[6:])
         names = set(re.findall(r"^(?:async\s+)?def\s+(\w+)|^class\s+(\w+)", text, re.M))
@@ -156,9 +166,9 @@ def run(ctx):
             if cmd in docs.HEADER_BOUND:
                 kinds += ["before-filler"]
             else:
-                kinds += ["after-filler", "before-filler", "in-function", "in-if", "repeat2", "repeat3"]
+                kinds += ["after-filler", "before-filler", "in-function", "in-if", "repeat2", "repeat3", "in-function-class", "in-function-if", "in-function-try", "in-class-class"]
                 if ctx.quick:
-                    kinds = ["as-is", "repeat2"] + rng.sample([k for k in kinds[1:] if k != "repeat2"], 2)
+                    kinds = ["as-is", "repeat2", rng.choice(["in-function-class", "in-function-if", "in-function-try"])] + rng.sample([k for k in kinds[1:] if k != "repeat2"], 2)
         for kind in kinds:
             e = embed(r, kind, rng)
             if e is None:
@@ -185,13 +195,20 @@ def run(ctx):
             ctx.discrepancy("example-run-fails:%s" % ident, "%s (%s, %s): %s" % (ident, row["label"], case["kind"], str(o)[:200]), rep, files)
             continue
         got = [x for x in o["value"]["rows"] if x[0].startswith(case["prefix"])]
+        # only findings located inside the embedded example count (wrappers and filler are the harness' own code)
+        n_orig = case["orig"].count("\n")
+        inside = set()
+        for mp in case["maps"]:
+            inside |= {mp[l] for l in range(1, min(n_orig + 1, len(mp)))}
+        if case["kind"] != "as-is":
+            got = [x for x in got if x[2] in inside]
         ctx.count("examples_run:" + row["class"])
         ctx.nontrivial([row["doc"], row["line"], case["kind"]])
         if row["class"] == "acceptable":
             if got and case["kind"] != "as-is" and base.get((row["doc"], row["line"])):
                 continue  # the example itself is already reported (its own finding); embeddings add nothing
             if got:
-                key = "acceptable-example-reported:%s" % ident if case["kind"] == "as-is" else "acceptable-embedding-reported:%s:%s" % (case["cmd"], case["kind"].rstrip("23"))
+                key = "acceptable-example-reported:%s" % ident if case["kind"] == "as-is" else "acceptable-embedding-reported:%s:%s" % (case["cmd"], case["kind"].rstrip("23") if case["kind"].startswith("repeat") else case["kind"])
                 ctx.discrepancy(key, "%s label %r (%s): the documented fix / acceptable code is reported: %r" % (ident, row["label"], case["kind"], got[:2]), rep, files)
             continue
         b = base.get((row["doc"], row["line"]))
@@ -208,7 +225,7 @@ def run(ctx):
         got_lines = sorted(x[2] for x in got)
         ctx.count("embeddings_checked")
         if len(got) != len(b) * case["mult"] or exp_lines != got_lines:
-            ctx.discrepancy("embedding-changes-findings:%s:%s" % (case["cmd"], case["kind"].rstrip("23")), "%s (%s) embedded %s: base %d finding(s) at lines %r, embedded %d at %r (expected %r)" % (
+            ctx.discrepancy("embedding-changes-findings:%s:%s" % (case["cmd"], case["kind"].rstrip("23") if case["kind"].startswith("repeat") else case["kind"]), "%s (%s) embedded %s: base %d finding(s) at lines %r, embedded %d at %r (expected %r)" % (
                 ident, row["label"], case["kind"], len(b), sorted(x[2] for x in b), len(got), got_lines, exp_lines), rep, dict(files, **{"original%s" % EXT[case["lang"]]: case["orig"]}))
     if judged:
         ctx.sample({"doc": judged[0]["doc"], "line": judged[0]["line"], "label": judged[0]["label"], "class": judged[0]["class"], "text": judged[0]["text"][:300]})
